@@ -1236,6 +1236,9 @@ func (u *Unit) frameGoals(st *State, only map[string]bool) []frameGoal {
 		if strings.HasPrefix(h, "HG_") && (!ghostFrame || h == "HG_ctxdone") {
 			continue
 		}
+		if strings.HasPrefix(h, "HL_") {
+			continue // derived from the map heaps, which are frame-checked themselves
+		}
 		end := u.heapCur(st, h)
 		start := u.heapCur(u.entry, h)
 		if end == start {
@@ -1458,6 +1461,9 @@ func (u *Unit) runLoop(st *State, lc *LoopContract, n int, label string, pos, bo
 	for i, inv := range lc.Invariants {
 		u.emit(st, "inv", fmt.Sprintf("inv-entry#%d.%d", n, i), "loop invariant holds on entry: "+inv.Text, pos, env.evalBool(inv.Expr))
 	}
+	for i, cl := range lc.Entry {
+		u.emit(st, "inv", fmt.Sprintf("loop-entry#%d.%d", n, i), "when loop "+fmt.Sprint(n)+" is entered: "+cl.Text, pos, env.evalBool(cl.Expr))
+	}
 	// 2. havoc + assume invariants
 	head := st.clone()
 	u.havocLoop(head, havocNode, extraHavoc)
@@ -1484,9 +1490,14 @@ func (u *Unit) runLoop(st *State, lc *LoopContract, n int, label string, pos, bo
 		dec0 = u.toIdxSpec(henv.eval(lc.Decreases.Expr))
 	}
 	// 3. condition
+	exitHook := u.pendingExitHook
+	u.pendingExitHook = nil
 	c, _ := cond(head)
 	exit := head.clone()
 	exit.assume(not(c))
+	if exitHook != nil {
+		exitHook(exit) // facts of the NORMAL exit (condition false), e.g. a map range has visited every present key
+	}
 	in := head.clone()
 	in.assume(c)
 	// cover: the body is reachable under the invariant
@@ -1674,11 +1685,53 @@ func (u *Unit) execRangeMap(st *State, s *ast.RangeStmt, lc *LoopContract, n int
 	u.visitedVars[n] = vis
 	st.vars[vis] = Term{S: fmt.Sprintf("((as const (Array %s Bool)) false)", ks), Spec: fmt.Sprintf("(Array %s Bool)", ks)}
 	more := func(st *State) (string, bool) { return u.c.fresh("mapmore", "Bool"), true }
+	// ghost vislensumN: sum of len(m[k]) over the keys visited so far (maps of slices, int mode)
+	hl := u.lensumHeap(mt)
+	var visLen *types.Var
+	extra := []*types.Var{vis}
+	if hl != "" {
+		visLen = types.NewVar(s.Pos(), u.pkg.Types, fmt.Sprintf("vislensum%d", n), types.Typ[types.Int])
+		if u.visLenVars == nil {
+			u.visLenVars = map[int]*types.Var{}
+		}
+		u.visLenVars[n] = visLen
+		st.vars[visLen] = Term{S: "0", Spec: "Int"}
+		extra = append(extra, visLen)
+	}
+	bodyWritesMap := func() bool {
+		hp, _ := u.mapHeaps(mt)
+		all, some := u.loopHeapEffects(s.Body)
+		return all || some[hp]
+	}
+	u.pendingExitHook = func(st *State) {
+		// normal exit: if the body cannot write a map of this type, every present key has been visited (exactly once)
+		hp, _ := u.mapHeaps(mt)
+		if all, some := u.loopHeapEffects(s.Body); !all && !some[hp] {
+			u.c.n++
+			kq := fmt.Sprintf("k_q%d", u.c.n)
+			cur := st.vars[vis]
+			present := fmt.Sprintf("(select (select %s %s) %s)", u.heapRead(st, hp), m.S, kq)
+			st.assume(fmt.Sprintf("(forall ((%s %s)) (! (=> %s (select %s %s)) :pattern (%s)))", kq, ks, present, cur.S, kq, present))
+			if visLen != nil {
+				st.assume(eq(st.vars[visLen].S, "(select "+u.heapRead(st, hl)+" "+m.S+")"))
+			}
+		}
+	}
 	return u.runLoop(st, lc, n, label, s.Pos(), s.Body.Pos(), s.Body, more,
 		func(st *State) *State {
 			k := u.freshOf(st, mt.Key(), "mapkey")
 			v, present := u.mapLookup(st, m, k, mt)
 			st.assume(present)
+			if visLen != nil {
+				cur := st.vars[visLen]
+				nv := u.c.fresh("vislensum", "Int")
+				st.assume(eq(nv, "(+ "+cur.S+" "+sLen(v.S)+")"))
+				if !bodyWritesMap() {
+					// a partial sum over distinct present keys never exceeds the total
+					st.assume("(<= " + nv + " (select " + u.heapRead(st, hl) + " " + m.S + "))")
+				}
+				st.vars[visLen] = Term{S: nv, Spec: "Int"}
+			}
 			cur := st.vars[vis]
 			st.assume(not(fmt.Sprintf("(select %s %s)", cur.S, k.S)))
 			nv := u.c.fresh("visited", cur.Spec)
@@ -1700,18 +1753,7 @@ func (u *Unit) execRangeMap(st *State, s *ast.RangeStmt, lc *LoopContract, n int
 			}
 			return u.execBlock(st, s.Body.List)
 		},
-		func(st *State) *State {
-			// normal exit: if the body cannot write a map of this type, every present key has been visited
-			hp, _ := u.mapHeaps(mt)
-			if all, some := u.loopHeapEffects(s.Body); !all && !some[hp] {
-				u.c.n++
-				kq := fmt.Sprintf("k_q%d", u.c.n)
-				cur := st.vars[vis]
-				present := fmt.Sprintf("(select (select %s %s) %s)", u.heapRead(st, hp), m.S, kq)
-				st.assume(fmt.Sprintf("(forall ((%s %s)) (! (=> %s (select %s %s)) :pattern (%s)))", kq, ks, present, cur.S, kq, present))
-			}
-			return st
-		}, []*types.Var{vis})
+		func(st *State) *State { return st }, extra)
 }
 
 // chanGhost declares the ghost sequence of values received from a channel until it is closed:
